@@ -726,3 +726,119 @@ example : Reg (eOps (· * ·) (fun _ _ => 0) (fun _ _ => false) (fun _ _ => 0))
   · intro u v; simp; ring
   · intro u; simp; nlinarith [sq_nonneg u]
   · intro u; simp
+
+/-! ### Huber pair on weighted lists -/
+section lists2
+variable {K : Type} [Field K] [LinearOrder K] [IsStrictOrderedRing K]
+
+/-- One entry of the Huber pair: for `|y| ≤ 1`, `x·y ≤ h_γ(x) + (γ/2)·y²` (coded `Huber._call`
+entry vs the coded conjugate `IndicatorLpUnitBall(∞) + γ/2‖·‖²`). -/
+theorem C08.huber_scalar (γ x y : K) (hγ : 0 < γ) (hy : absK y ≤ 1) :
+    x * y ≤ huberVal1 γ x + γ / two * (y * y) := by
+  rw [C08.absK_eq] at hy
+  have hxy : x * y ≤ |x| * |y| := by rw [← abs_mul]; exact le_abs_self _
+  have hb0 : 0 ≤ |y| := abs_nonneg _
+  have hyy : y * y = |y| * |y| := by rw [← abs_mul, abs_mul_self]
+  unfold huberVal1
+  simp only [hγ, if_true, C08.absK_eq, two]
+  split_ifs with h
+  · have h1 : 0 ≤ 1 - |y| := by linarith
+    have h2 : 0 ≤ |x| - γ / (1 + 1) * (1 + |y|) := by
+      have : γ / (1 + 1) * (1 + |y|) ≤ γ / (1 + 1) * (1 + 1) :=
+        mul_le_mul_of_nonneg_left (by linarith) (by positivity)
+      have e : γ / (1 + 1) * (1 + 1) = γ := by field_simp
+      linarith
+    have := mul_nonneg h1 h2
+    rw [hyy]
+    nlinarith
+  · have hx2 : x * x = |x| * |x| := by rw [← abs_mul, abs_mul_self]
+    have key : 0 ≤ (|x| - γ * |y|) * (|x| - γ * |y|) / ((1 + 1) * γ) :=
+      div_nonneg (mul_self_nonneg _) (by positivity)
+    have e : (|x| - γ * |y|) * (|x| - γ * |y|) / ((1 + 1) * γ)
+        = |x| * |x| * (1 / ((1 + 1) * γ)) + γ / (1 + 1) * (|y| * |y|) - |x| * |y| := by
+      field_simp; ring
+    rw [hyy]
+    linarith
+
+theorem C08.innerW_zero_right (w y : List K) : innerW w y (w.map fun _ => (0 : K)) = 0 := by
+  induction w generalizing y with
+  | nil => simp [innerW]
+  | cons a ws ih => cases y with
+    | nil => simp [innerW]
+    | cons y0 ys =>
+        simp only [List.map_cons, innerW, mul_zero, zero_add]
+        exact ih ys
+
+/-- `Huber.convex_conj` as coded (`FunctionalQuadraticPerturb(IndicatorLpUnitBall(∞), γ/2)`) is a
+Fenchel–Young partner of the coded `Huber._call` on every weighted list space (all lengths,
+non-negative weights, any ordered field). -/
+theorem C08.huber_conj (γ : K) (hγ : 0 < γ) (w x y : List K) (hw : ∀ a ∈ w, 0 ≤ a) :
+    ∃ t', (Fn.coord (.huber γ) : Fn (List K) K).conj (listOps w) = some t' ∧
+      (t'.dom (listOps w) y = true →
+        (listOps w).inner x y ≤ (Fn.coord (.huber γ) : Fn (List K) K).value (listOps w) x
+          + t'.value (listOps w) y) := by
+  refine ⟨_, rfl, ?_⟩
+  intro hy
+  simp only [Fn.dom, Fn.value, listOps, C08.innerW_zero_right, zero_add, add_zero] at hy ⊢
+  induction w generalizing x y with
+  | nil => simp [innerW, huberW]
+  | cons a ws ih =>
+      cases x with
+      | nil =>
+          cases y with
+          | nil => simp [innerW, huberW]
+          | cons y0 ys =>
+              simp only [innerW, huberW, zero_add]
+              have : ∀ (ws ys : List K), (∀ b ∈ ws, 0 ≤ b) → 0 ≤ innerW ws ys ys := by
+                intro ws
+                induction ws with
+                | nil => intro ys _; simp [innerW]
+                | cons b bs ihb =>
+                    intro ys hb
+                    cases ys with
+                    | nil => simp [innerW]
+                    | cons z zs =>
+                        simp only [innerW]
+                        have := ihb zs (fun c hc => hb c (by simp [hc]))
+                        have h1 : 0 ≤ b * z * z := by
+                          rw [mul_assoc]; exact mul_nonneg (hb b (by simp)) (mul_self_nonneg z)
+                        linarith
+              have h2 := this (a :: ws) (y0 :: ys) hw
+              simp only [innerW] at h2
+              have : 0 ≤ γ / two := by unfold two; positivity
+              exact mul_nonneg this h2
+      | cons x0 xs =>
+          cases y with
+          | nil => 
+              simp only [innerW, huberW, mul_zero, add_zero]
+              have : ∀ (ws xs : List K), (∀ b ∈ ws, 0 ≤ b) → 0 ≤ huberW γ ws xs := by
+                intro ws
+                induction ws with
+                | nil => intro xs _; simp [huberW]
+                | cons b bs ihb =>
+                    intro xs hb
+                    cases xs with
+                    | nil => simp [huberW]
+                    | cons z zs =>
+                        simp only [huberW]
+                        have := ihb zs (fun c hc => hb c (by simp [hc]))
+                        have h0 := C08.huber_scalar γ z 0 hγ (by simp [absK])
+                        simp at h0
+                        have h1 : 0 ≤ b * huberVal1 γ z := mul_nonneg (hb b (by simp)) h0
+                        linarith
+              have := this (a :: ws) (x0 :: xs) hw
+              simpa [huberW] using this
+          | cons y0 ys =>
+              simp only [inLinfBall, Bool.and_eq_true, decide_eq_true_eq] at hy
+              have ha : 0 ≤ a := hw a (by simp)
+              have hrest := ih xs ys (fun b hb => hw b (by simp [hb])) hy.2
+              have h0 := C08.huber_scalar γ x0 y0 hγ hy.1
+              simp only [innerW, huberW]
+              have h1 : a * x0 * y0 ≤ a * huberVal1 γ x0 + γ / two * (a * y0 * y0) := by
+                have := mul_le_mul_of_nonneg_left h0 ha
+                calc a * x0 * y0 = a * (x0 * y0) := by ring
+                  _ ≤ a * (huberVal1 γ x0 + γ / two * (y0 * y0)) := this
+                  _ = a * huberVal1 γ x0 + γ / two * (a * y0 * y0) := by ring
+              rw [mul_add]
+              linarith
+end lists2
